@@ -872,6 +872,12 @@ func (fr *Frame) evalCall(sc *Scope, x *ECall) Val {
 		argn(1)
 		v := fr.evalExpr(sc, x.Args[0])
 		return scalar(boolT, fr.allocated(sc.st, fr.refOf(v)))
+	case "within":
+		// within(s, base): s is a sub-slice base[i:j] of base for some 0 <= i <= j <= len(base)
+		argn(2)
+		s := fr.evalExpr(sc, x.Args[0])
+		b := fr.evalExpr(sc, x.Args[1])
+		return scalar(boolT, And(Eq(s.Obj(), b.Obj()), ILe(b.Off(), s.Off()), ILe(IAdd(s.Off(), s.Len()), IAdd(b.Off(), b.Len()))))
 	case "sameSlice":
 		// sameSlice(s, base, lo, hi): s is exactly base[lo:hi]
 		argn(4)
